@@ -168,7 +168,24 @@ func runCore(c *Ctx, id string) {
 		return
 	}
 	for it := 0; it < c.n; it++ {
-		coreHistory(c, d)
+		switch genMode {
+		case "gang":
+			gangHistory(c, d)
+		case "preempt":
+			preemptHistory(c, d)
+		case "mixed":
+			// the mix used by the checks: general, gang-biased and preemption-biased histories
+			switch it % 5 {
+			case 0, 1:
+				coreHistory(c, d)
+			case 2, 3:
+				gangHistory(c, d)
+			default:
+				preemptHistory(c, d)
+			}
+		default:
+			coreHistory(c, d)
+		}
 	}
 }
 
